@@ -3,6 +3,7 @@
 PROPS = {
     'C01': ['mpgverif.harness.c01_stage1'],
     'C02': ['mpgverif.harness.c01_stage1', 'mpgverif.harness.c07_wrapper'],
+    'C03': ['mpgverif.harness.c03_labels'],
     'C15': ['mpgverif.harness.c15_fusion'],
     'C05': ['mpgverif.harness.kernel_vpd'],
     'C09': ['mpgverif.harness.kernel_vpd', 'mpgverif.harness.c09_sect'],
